@@ -26,6 +26,7 @@ macro_rules! dispatch {
         match $prop {
             "C01" => driver::$f(scenarios::c01::C01, $($arg),*),
             "C02" => driver::$f(scenarios::c02::C02, $($arg),*),
+            "C05" => driver::$f(scenarios::c05::C05, $($arg),*),
             "C10" => driver::$f(scenarios::c10::C10, $($arg),*),
             other => {
                 eprintln!("HARNESS-ERROR unknown property {other}");
